@@ -153,6 +153,9 @@ def explore(fn, deadline_wall, region=None, max_paths=1000000, per_path_timeout=
                 res['detail'] = 'no path satisfied the assumptions and completed'
             else:
                 res['status'] = 'CONFIRMED'
+        elif res['unknown'] == 0 and res['confirmed'] == 0:
+            res['status'] = 'VACUOUS'
+            res['detail'] = 'every path was excluded by an assumption (%d paths)' % res['ignored']
         else:
             res['status'] = 'UNKNOWN'
             res['detail'] = 'exhausted with %d unknown paths %s' % (res['unknown'], res['unknown_reasons'])
